@@ -31,7 +31,7 @@ CLAIMS = {
         "from source to BV32 and decided by z3 for all 2^96 inputs; L2 ACLRule.permit_frame_check on a real rule with "
         "every field symbolic (specified or not, addresses/ports as solver integers) against the reference 'all "
         "specified fields match'; L3 AccessControlList.is_permitted/add_rule/remove_rule on a real list with oracle "
-        "matchers: lowest matching position decides, exactly one hit counter moves, edits touch only the addressed "
+        "matchers: lowest matching position decides, else the list's implicit action (given to the constructor or assigned afterwards), exactly one hit counter moves, edits touch only the addressed "
         "slot (Python API and request API), every position -2..max+1.",
         "note": "Bounds: up to 3 (quick) / 5 (thorough) populated slots; 4 field combinations for edits. Trusted: "
         "CrossHair/z3, the lemma composition, the recording oracle standing in for the kernel in L2, the BV model of "
@@ -57,7 +57,7 @@ CLAIMS = {
         "by PrimaiteGame.from_config, unmodified / misspelt at a depth / truncated, under every node power state and "
         "every service/application operating state: a request that does not reach its handler answers unreachable/"
         "failure and leaves Simulation.describe_state() bit-identical and sends no frame; (actions) every entry of a "
-        "generated action map is never 'unreachable' when its components exist, never reaches a handler when they do not; with a file or a whole folder deleted earlier in the episode, every request and action that still addresses it (other than restoring exactly it, or creation) is not answered success and changes nothing.",
+        "generated action map is never 'unreachable' when its components exist, never reaches a handler when they do not; with a file or a whole folder deleted earlier in the episode, every request and action that still addresses it (other than restoring exactly it, or creation) is not answered success and changes nothing; (service gate) terminal requests of a node whose own terminal is in any non-RUNNING service state, after a history of successful requests, are not answered success and never reach the target.",
         "note": "Bounds: one host of a 4-node (quick) / two topologies (thorough) scenario; leaves with structured "
         "payload arguments (user/session/terminal/nmap/ACL requests) are exercised through the action map only. Trusted: "
         "CrossHair/z3, describe_state() as the state observation, the leaf-wrapping recorder.",
@@ -82,7 +82,7 @@ CLAIMS = {
         "step() does not raise, returns a finite reward, terminated False, truncated == (steps >= M), advances the "
         "tick by one and appends exactly one history item with a documented status per agent; reset() yields tick 0, "
         "empty histories, zero rewards and an incremented episode counter, and the next episode obeys the same contract.",
-        "note": "Bounds: k=1 all actions, k=2 with ten state-changing first actions (incl. removal of an application that shares its port key with other software) and one k=3 chain install/remove/any (quick); k=2 with every second "
+        "note": "Bounds: k=1 all actions, k=2 with ten state-changing first actions (incl. removal of an application that shares its port key with other software) one k=3 chain install/remove/any, and one k=2 job in which the GREEN agent uses its rewarded application in every step while the defender may remove it in the same step (quick); k=2 with every second "
         "action first, plus the shipped single-RL-agent scenario files with k=1 over their whole action map (thorough). "
         "Action indices are finite choices, so the solver's role is the exhaustive path enumeration and the truncation "
         "comparison for every M; reset() itself takes no symbolic input and is run untraced. Scripted agents use the "
@@ -93,7 +93,7 @@ CLAIMS = {
         "engine": "symex+py2smt",
         "text": "Leaf level: the real observation tree built by the from_config chain, evaluated on the real "
         "describe_state() dictionary in which every quantity a leaf reads is a solver value (every member of the real "
-        "enums, unbounded non-negative counts, listed/unlisted/None ACL fields, absent components; observation configs listing exactly / more / fewer components than their num_* sizes); the result is "
+        "enums, unbounded non-negative counts, listed/unlisted/None ACL fields, absent components; observation configs listing exactly / more / fewer components than their num_* sizes; the address, wildcard, port and protocol id lists have pairwise different lengths and the last listed values are used); the result is "
         "checked against the real gymnasium space by a pure-Python membership walker, two observations in a row. "
         "Environment level: observations returned by reset/step for every action of the generated maps, nested and "
         "flattened, NMNE capture on/off, spaces equal across episodes. FP level: NIC traffic category and link "
@@ -111,8 +111,7 @@ CLAIMS = {
         "unbounded counts, interface flags, ACL slot contents through add_rule, link loads, NMNE counts over two "
         "steps) and every leaf is compared with the documented encoding computed from the objects; scan-gated and "
         "true-health configurations; non-ON nodes and padding slots read as defaults; slot -> component assignment; self-composition over two consecutive observations: a host observed ON with non-default values and then going down reads exactly like the same host going down without that history.",
-        "note": "Bounds: one family symbolic at a time (service / application / file / folder / power+counters / ACL / "
-        "link / NMNE), thresholds of the generated scenario, 4 observed ACL slots, 9 link loads; firewall leaves (six ACL lists, three ports, ON/OFF) on a generated firewall-with-DMZ scenario. User-session leaves are not covered. Trusted: CrossHair/z3, the reference encodings (from the observation classes' docstrings).",
+        "note": "Bounds: one family symbolic at a time (service / application / file / folder / power+counters / ACL / link / NMNE), scan options declared for all nodes or per host with the opposite at the nodes level, thresholds of the generated scenario, 4 observed ACL slots, 9 link loads; firewall leaves (six ACL lists, three ports, ON/OFF) on a generated firewall-with-DMZ scenario. User-session leaves are not covered. Trusted: CrossHair/z3, the reference encodings (from the observation classes' docstrings).",
         "technique": TECH_S,
     },
     "C08": {
@@ -220,7 +219,7 @@ CLAIMS = {
         "key-order permutation of the mappings the loader iterates; the real PrimaiteGame.from_config builds it and an "
         "inventory of the built object graph (nodes, addresses, links+bandwidth, routes, ACL rules at positions, "
         "software with options and state, users, folders/files, agents, durations) is compared with an inventory "
-        "derived independently from the dict; the permuted scenario builds an identical simulation; the shipped "
+        "derived independently from the dict; the NMNE capture settings in effect are the ones the scenario declares although another scenario with the opposite declaration was loaded before in the same process; the permuted scenario builds an identical simulation; the shipped "
         "scenario files with an RL agent go through the same comparison.",
         "note": "The claim starts at the parsed dict (PyYAML's C parser is outside the encoding); all inputs are finite "
         "choices - the solver enumerates the combinations (5 bits coupled per quick job, 2^11 combinations in thorough). "
